@@ -1,5 +1,6 @@
 import Deb822Verif.Lemmas.RelCanonField
 import Deb822Verif.Props.C09
+import Deb822Verif.Lemmas.SplitOn
 /-! The conversion `lossy::Relation → lossless::Relation` (through `RelationBuilder`) on valid values:
     the tree it builds is the tree the parser builds for the canonical text, hence its text and the
     conversion back (C14, stage 2). -/
@@ -138,18 +139,19 @@ theorem sepBy_cons (sep : List RNode) (x : List RNode) (xs : List (List RNode)) 
 theorem constraintToks_tks (c : VC) : constraintToks c = tks (opToks c) := by
   cases c <;> simp [constraintToks, VC.display, opToks, tks, tk]
 
-theorem splitOnce_digits (e body : Str) (he : ∀ c ∈ e, c ≠ ':') :
-    splitOnce ':' (e ++ ':' :: body) = some (e, body) := by
-  induction e with
-  | nil => simp [splitOnce]
-  | cons x xs ih =>
-    have hx : x ≠ ':' := he x (by simp)
-    simp [splitOnce, hx, ih (fun c hc => he c (by simp [hc]))]
+/-- `IDENT first (COLON IDENT)*` as `version_tokens` writes it -/
+theorem sepBy_colon (p : Str) (ps : List Str) :
+    sepBy [T .COLON ":"] ((p :: ps).map fun q => [Node.tok .IDENT q])
+      = tks ((.IDENT, p) :: colonTail ps) := by
+  rw [List.map_cons, sepBy_cons]
+  induction ps with
+  | nil => simp [tk]
+  | cons q qs ih => simp [tk, T] at ih ⊢; exact ih
 
 theorem versionTokens_valid (v : Version) (h : validVersion v = true) :
     versionTokens v = tks (versionAOf v).toks := by
   obtain ⟨hok, _⟩ := (validVersion_iff v).1 h
-  obtain ⟨hb, he⟩ := (VersionA.ok_iff _).1 hok
+  obtain ⟨hb, _, he⟩ := (VersionA.ok_iff _).1 hok
   cases v with
   | mk ep up rev =>
     cases ep with
@@ -157,21 +159,22 @@ theorem versionTokens_valid (v : Version) (h : validVersion v = true) :
       have e1 : (Version.mk none up rev).display = (versionAOf ⟨none, up, rev⟩).body := by
         cases rev <;> simp [Version.display, versionAOf]
       simp only [versionTokens, Option.isSome_none, Bool.false_eq_true, ↓reduceIte]
-      split <;> (rw [e1]; simp [VersionA.toks, versionAOf, tks, tk])
+      rw [e1]; simp [VersionA.toks, VersionA.first, VersionA.more, versionAOf, tks, tk]
     | some e =>
       have hd := (he (toString e).toList (by simp [versionAOf])).1
-      have hnc : ∀ c ∈ (toString e).toList, c ≠ ':' := by
-        intro c hc ecol
-        have : isAsciiDigit c = true := by
+      have hnc : ':' ∉ (toString e).toList := by
+        intro hc
+        have : isAsciiDigit ':' = true := by
           have := hd
           simp only [isDigits, Bool.and_eq_true, List.all_eq_true] at this
-          exact this.2 c hc
-        rw [ecol] at this; exact absurd this (by decide)
+          exact this.2 ':' hc
+        exact absurd this (by decide)
       have e1 : (Version.mk (some e) up rev).display
           = (toString e).toList ++ ':' :: (versionAOf ⟨some e, up, rev⟩).body := by
         cases rev <;> simp [Version.display, versionAOf]
-      simp only [versionTokens, e1, splitOnce_digits _ _ hnc, Option.isSome_some, ↓reduceIte]
-      simp [VersionA.toks, versionAOf, tks, tk, T]
+      simp only [versionTokens, e1, Text.splitOn_cons _ _ _ hnc, Option.isSome_some, ↓reduceIte,
+        sepBy_colon]
+      simp [VersionA.toks, VersionA.first, VersionA.more, versionAOf]
 
 theorem versionNode_valid (c : VC) (v : Version) (h : validVersion v = true) :
     versionNode c v = (⟨sp, [], c, sp, versionAOf v, []⟩ : VerPart).node := by
